@@ -79,9 +79,13 @@ func (h *encHooks) Call(in *sym.Interp, fr *sym.Frame, site ssa.CallInstruction,
 		if len(args) > 1 {
 			val = args[1]
 		}
-		ev := in.Emit(fr, "encode", site, name, args, nil)
+		var oldv *sym.Term
 		if ptr.Op == "ptr" {
-			old := in.Load(fr.Mem(), ptr)
+			oldv = in.Load(fr.Mem(), ptr)
+		}
+		ev := in.Emit(fr, "encode", site, name, []*sym.Term{ptr, val, oldv}, nil)
+		if ptr.Op == "ptr" {
+			old := oldv
 			nt := &sym.Term{Op: "enc", Name: name, Args: []*sym.Term{old, val}, T: old.T}
 			fr.Mem().Store(ptr.Obj, ptr.Path, nt)
 		} else {
@@ -273,4 +277,29 @@ func describeItems(items []bufItem) string {
 		out = append(out, it.Kind+"("+shortKey(it.Val)+")")
 	}
 	return strings.Join(out, " ")
+}
+
+// DebugEnc evaluates an Encoder method with integer field pins (for ivgsa dump).
+func DebugEnc(c *Ctx, method string, opaque []string, intPins map[string]int64, atomPins []string) (*sym.Interp, *sym.Mem) {
+	m := c.newEncModel()
+	fn := c.Method("encode", "Encoder", method, true)
+	if !m.ok || fn == nil {
+		return nil, nil
+	}
+	fields := map[string]*sym.Term{}
+	for k, v := range intPins {
+		fields[k] = sym.Const(constant.MakeInt64(v), types.Typ[types.Uint8])
+		if k == "err" {
+			fields[k] = sym.Nil(types.Universe.Lookup("error").Type())
+		}
+	}
+	for _, a := range atomPins {
+		fields[a] = sym.Atom(a, nil)
+	}
+	run := m.run(fn, fields, nil, func(h *encHooks) {
+		for _, o := range opaque {
+			h.opaque[o] = true
+		}
+	})
+	return run.in, run.mem
 }
